@@ -1,6 +1,8 @@
 #!/bin/bash
 # usage: try_seeded.sh <patch.diff> <Cxx> [<Cyy> ...] — apply to /repo, run the quick checks, revert.
 P=$1; shift
+export VERIF_TARGET=/verif/.cache/target-seeded
+export VERIF_EVIDENCE_DIR=/verif/.cache/evidence-seeded
 git -C /repo apply "$P" || { echo "patch does not apply: $P"; exit 2; }
 for c in "$@"; do
   echo "--- $c on $(basename $(dirname $P))"
